@@ -13,6 +13,83 @@ Open Scope string_scope. Open Scope list_scope.
 Definition append_offset (pos size : Z) : Z :=
   ilookup pad_out_var (exec pad_program [(pad_pos_var, pos); (pad_size_var, size)]).
 
+(* ---- BuildIndex: the header scan loop over an abstract tar stream ------------
+   A stream is a list of members followed by the end-of-archive marker (two zero
+   blocks).  [m_hdr] = number of 512-byte blocks from the start of the member to
+   the start of its data: 1 for a plain ustar header, more when PAX ('x') or GNU
+   ('L','K') extension headers - each with its own data blocks - precede it
+   (archive/tar's Reader folds them into one Next()); [m_size] = the size Next()
+   reports.  The data is followed by padding up to the next block boundary.
+   The reader sits directly on the *os.File (tar.NewReader(f), no buffering), so
+   f.Seek(0, io.SeekCurrent) after Next() is the end of the header blocks; the
+   member's data is skipped lazily by the following Next() ([s_pend]).
+   Envelope: the archive is the one MultiWrite just wrote (regular files; for
+   header-only types hdr.Size need not be the number of data bytes). *)
+Record member := { m_hdr : Z; m_size : Z }.
+Definition padded (n : Z) : Z := ((n + 511) / 512 * 512)%Z.
+Definition member_len (m : member) : Z := (512 * m_hdr m + padded (m_size m))%Z.
+(* offset of the first end-of-archive block *)
+Fixpoint stream_len (ms : list member) : Z :=
+  match ms with [] => 0%Z | m :: t => (member_len m + stream_len t)%Z end.
+
+Inductive rerr := ENone | EEOF.
+Record sstate := { s_rest : list member; s_pos : Z; s_pend : Z; s_cur : option member; s_err : rerr; s_env : ienv }.
+Inductive flow := Cont (s : sstate) | Brk (s : sstate) | Ret | Pnc.
+
+Definition set_env (s : sstate) (v : string) (z : Z) (e : rerr) : sstate :=
+  {| s_rest := s_rest s; s_pos := s_pos s; s_pend := s_pend s; s_cur := s_cur s; s_err := e; s_env := (v, z) :: s_env s |}.
+
+Definition scan_step (op : scan_op) (s : sstate) : flow :=
+  match op with
+  | OpNext =>
+      match s_rest s with
+      | m :: t => Cont {| s_rest := t; s_pos := s_pos s + s_pend s + 512 * m_hdr m; s_pend := padded (m_size m);
+                          s_cur := Some m; s_err := ENone; s_env := s_env s |}
+      | [] => Cont {| s_rest := []; s_pos := s_pos s + s_pend s + 1024; s_pend := 0;     (* the two zero blocks *)
+                      s_cur := None; s_err := EEOF; s_env := s_env s |}
+      end
+  | OpBreakEOF => match s_err s with EEOF => Brk s | ENone => Cont s end
+  | OpReturnErr => match s_err s with ENone => Cont s | EEOF => Ret end
+  | OpPos v => Cont (set_env s v (s_pos s) ENone)          (* Seek on a regular file; overwrites err *)
+  | OpSize v => match s_cur s with Some m => Cont (set_env s v (m_size m) (s_err s)) | None => Pnc end  (* hdr is nil *)
+  end.
+
+Fixpoint run_body (ops : list scan_op) (s : sstate) : flow :=
+  match ops with
+  | [] => Cont s
+  | op :: t => match scan_step op s with Cont s' => run_body t s' | f => f end
+  end.
+
+Fixpoint scan_loop (fuel : nat) (s : sstate) : res ienv :=
+  match fuel with
+  | O => OutOfFuel
+  | S f => match run_body scan_body s with
+           | Cont s' => scan_loop f s'
+           | Brk s' => Ok (s_env s')
+           | Ret => Err
+           | Pnc => Panic
+           end
+  end.
+
+(* `var lastFileSize, lastStreamPos int64`: both zero (ilookup of an unbound name is 0).
+   Without the rewind the reader starts where MultiWrite stopped: at the end of the file. *)
+Definition scan_start (ms : list member) : sstate :=
+  if scan_rewinds
+  then {| s_rest := ms; s_pos := 0; s_pend := 0; s_cur := None; s_err := ENone; s_env := [] |}
+  else {| s_rest := []; s_pos := stream_len ms + 1024; s_pend := 0; s_cur := None; s_err := ENone; s_env := [] |}.
+
+(* the offset BuildIndex seeks to before it appends: the scan, then the translated arithmetic *)
+Definition scan_offset (ms : list member) : res Z :=
+  do env <- scan_loop (S (S (List.length ms))) (scan_start ms);
+  Ok (append_offset (ilookup pad_pos_var env) (ilookup pad_size_var env)).
+
+(* where the reader stands after each Next() and what size it reports (for the correspondence) *)
+Fixpoint reader_trace (start : Z) (ms : list member) : list (Z * Z) :=
+  match ms with
+  | [] => []
+  | m :: t => let p := (start + 512 * m_hdr m)%Z in (p, m_size m) :: reader_trace (p + padded (m_size m)) t
+  end.
+
 (* ---- architectures -------------------------------------------------------- *)
 Definition parse_architecture (s : string) : string :=
   match alookup s parse_arch_table with Some a => a | None => s end.
